@@ -1683,7 +1683,8 @@ TRUSTED = ["the with-body of _patched_build_char_map leaves the patched attribut
            "library (non-package) callables do not mutate the arguments they are given (ownership analysis); copies (dict(x), list(x), x.copy(), slices) "
            "are tracked one level deep"]
 ASSUMED_MODELS = ["getattr/setattr on pypdf modules (ghost attribute map)", "generator resumption: normal, throw(exc), close()",
-                  "pypdf._crypt_providers.crypt_provider is a tuple of strings (its items compare with a str without raising)",
+                  "pypdf._crypt_providers.crypt_provider is a tuple of strings (its items compare with a str without raising; checked against the "
+                  "installed pypdf on every run by replay/C15.py::assumed_model_facts)",
                   "_ROUND_KEY_CACHE as an abstract mapping whose values are published heap objects (the key expansion it memoises is "
                   "verified since round 7: <key-expansion> obligations)"]
 ASSUMPTIONS = ["SCHEDULES: only the sufficient conditions H9a / H9b / H10 / H12 on the module state the library owns are decided; interleavings inside third-party "
